@@ -301,8 +301,10 @@ def info(case):
 REGIONS = {}
 
 # ----------------------------------------------------------------------------- strategies
-_val = st.one_of(V.s_date, V.s_naive, V.s_utc, V.s_zoned, V.s_zoned_dst, V.s_td, V.s_td, st.just({"k": "none"}))
-_good_start = st.one_of(V.s_date, V.s_naive, V.s_utc, V.s_zoned, V.s_zoned_dst)
+# values of subclasses of date / datetime (pendulum, freezegun and friends supply such objects) behave like their base type
+_sub = st.one_of(V.s_date, V.s_naive).map(lambda x: dict(x, sub=True))
+_val = st.one_of(V.s_date, V.s_naive, V.s_utc, V.s_zoned, V.s_zoned_dst, V.s_td, V.s_td, st.just({"k": "none"}), _sub)
+_good_start = st.one_of(V.s_date, V.s_naive, V.s_utc, V.s_zoned, V.s_zoned_dst, _sub)
 _setattr = st.sampled_from(["start", "end", "DTSTART", "ENDPROP", "DURATION"])
 
 
